@@ -1,5 +1,6 @@
 """C05 - evicting nodes from the object cache never changes behaviour and
 nothing stays pinned."""
+from ..harness import safe_repr as _srepr  # noqa: E402
 from .. import dbops, families, gen, harness, hist, inject, minidb, walker
 from ..harness import brief, call, eq
 from ..inject import FKey
@@ -635,7 +636,7 @@ def run_history(fam, kind, impl, mode, rng, rec, h):
             for op, args, kw in bad_calls(fam, kind, rng, present,
                                           g.universe, g.values):
                 log.append((op, args, kw))
-                rec.journal(repr((desc, log[-30:])))
+                rec.journal(_srepr((desc, log[-30:])))
                 ro = do_call(c, op, args, kw)
                 to = do_call(t, op, args, kw)
                 rec.evaluations += 1
@@ -679,7 +680,7 @@ def run_history(fam, kind, impl, mode, rng, rec, h):
         else:
             op, args = g.next_op(w, present)
         log.append((op, args))
-        rec.journal(repr((desc, log[-30:])))
+        rec.journal(_srepr((desc, log[-30:])))
         if op == 'stepped':
             def pause():
                 if sweep(conn, rng) > 0:
